@@ -129,7 +129,9 @@ def check_case(case) -> tuple[list[Violation], dict]:
         info["labels"].append("skipped:too_small")
         return vs, info
     ref = ref_nbc(G, fit, mx, factor, trunc)
-    ambiguous = any(m <= 1e-9 for m in ref["margins"])
+    # (with a single nearest-better distance d the mean is d itself and both sides compute factor*d identically:
+    #  the comparison d > factor*d is exact, never ambiguous)
+    ambiguous = any(m <= 1e-9 for m in ref["margins"]) and len(ref["nbd"]) > 1
     safe = all(m > 1e-6 for m in ref["margins"])
     if ambiguous:
         info["labels"].append("ambiguous")
